@@ -51,7 +51,9 @@ def getCollectionValue(collection, what):
     elif collection.isString():
         return [ch for ch in collection.value]
     else:
-        return None
+        raise CklRuntimeError(
+            ValueString("ERROR"), f"Cannot iterate over {collection.type()}"
+        )
 
 
 def getFuncallString(fn, args):
